@@ -500,63 +500,72 @@ def composite_direct_oracle(run):
 
 
 def autoregressive_oracle(run):
-    """ProbabilisticTensorDictSequential(return_composite=True) with a second head whose parameters are computed from the first
-    head's sample: the log-probability of an output tensordict is log p(a) + log p(b | a) *for the a and b found in that
-    tensordict* — what the modules wrote when they sampled —, aggregated or per head, under every interaction type."""
+    """ProbabilisticTensorDictSequential(return_composite=True) with heads whose parameters are computed from the sample of the
+    previous head (x -> a -> b -> c), in every nesting of return_composite sequences (flat, a nested sequence holding one, two
+    or all three interdependent heads, at the front or at the back, doubly nested): the log-probability of an output tensordict
+    is log p(a) + log p(b | a) + log p(c | b) *for the a, b, c found in that tensordict* — what the modules wrote when they
+    sampled —, aggregated or per head, under every interaction type."""
     from tensordict import TensorDict
     from tensordict.nn import (ProbabilisticTensorDictModule as PM, ProbabilisticTensorDictSequential as PS, TensorDictModule as TM,
                                set_composite_lp_aggregate, set_interaction_type)
     from tensordict.nn.probabilistic import InteractionType
+    heads = [("a", "x", 1.0), ("b", "a", 10.0), ("c", "b", -3.0)]
 
-    def chain(nested):
-        first = [TM(lambda x: (x, torch.ones_like(x)), in_keys=["x"], out_keys=[("pa", "loc"), ("pa", "scale")]),
-                 PM(in_keys={"loc": ("pa", "loc"), "scale": ("pa", "scale")}, out_keys=["a"], distribution_class=D.Normal,
-                    return_log_prob=True, log_prob_key="a_lp")]
-        rest = [TM(lambda a: (10 * a, torch.ones_like(a)), in_keys=["a"], out_keys=[("pb", "loc"), ("pb", "scale")]),
-                PM(in_keys={"loc": ("pb", "loc"), "scale": ("pb", "scale")}, out_keys=["b"], distribution_class=D.Normal,
-                   return_log_prob=True, log_prob_key="b_lp")]
-        if nested:
-            return PS(PS(*first, return_composite=True), *rest, return_composite=True)
-        return PS(*first, *rest, return_composite=True)
-    for nested, agg, it in itertools.product([False, True], [True, False], list(InteractionType)):
-        case = ["autoregressive", "nested" if nested else "flat", "aggregate" if agg else "per-key", str(it)]
-        run.case(("autoregressive", nested, agg, str(it)))
+    def stage(name, src, k):
+        return [TM(lambda v, _k=k: (_k * v, torch.ones_like(v)), in_keys=[src], out_keys=[("p" + name, "loc"), ("p" + name, "scale")]),
+                PM(in_keys={"loc": ("p" + name, "loc"), "scale": ("p" + name, "scale")}, out_keys=[name], distribution_class=D.Normal,
+                   return_log_prob=True, log_prob_key=name + "_lp")]
+
+    def build(layout):
+        def rec(l):
+            mods = []
+            for item in l:
+                if isinstance(item, list):
+                    mods.append(PS(*rec(item), return_composite=True))
+                else:
+                    mods += stage(*heads[item])
+            return mods
+        return PS(*rec(layout), return_composite=True)
+    layouts = {"flat": [0, 1, 2], "[a](b c)": [[0], 1, 2], "a (b c)": [0, [1, 2]], "(a b) c": [[0, 1], 2], "((a b c))": [[0, 1, 2]],
+               "((a b) c)": [[[0, 1], 2]], "a ((b c))": [0, [[1, 2]]]}
+    for (lname, layout), agg, it in itertools.product(layouts.items(), [True, False], list(InteractionType)):
+        case = ["autoregressive", lname, "aggregate" if agg else "per-key", str(it)]
+        run.case(("autoregressive", lname, agg, str(it)))
         torch.manual_seed(6)
         td = TensorDict({"x": torch.randn(4)}, [4])
         try:
             with warnings.catch_warnings():
                 warnings.simplefilter("ignore")
                 with time_limit(60), set_composite_lp_aggregate(agg), set_interaction_type(it):
-                    seq = chain(nested)
+                    seq = build(layout)
                     out = seq(td.clone())
                     lp = seq.log_prob(out.clone())
         except TimeoutError:
             raise
         except Exception as e:  # noqa: BLE001
             if it == InteractionType.MEDIAN:      # torch's Normal has no median
-                run.count("prob.unavailable", f"autoregressive/{nested}/{agg}/{it}:{type(e).__name__}")
+                run.count("prob.unavailable", f"autoregressive/{lname}/{agg}/{it}:{type(e).__name__}")
             else:
                 run.oracle_fail("probabilistic", case, f"raised {type(e).__name__}: {str(e)[:120]}", f"autoregressive:raised:{type(e).__name__}")
             continue
-        a, b = out["a"], out["b"]
-        want_a = D.Normal(td["x"], 1.0).log_prob(a)
-        want_b = D.Normal(10 * a, 1.0).log_prob(b)
+        want = {}
+        for name, src, k in heads:
+            want[name] = D.Normal(k * (td["x"] if src == "x" else out[src]), 1.0).log_prob(out[name])
         bad = []
-        if not (torch.allclose(out["a_lp"], want_a) and torch.allclose(out["b_lp"], want_b)):
-            bad.append("the log-probs written by the modules are not those of the heads at the written samples")
+        for name in want:
+            if not torch.allclose(out[name + "_lp"], want[name]):
+                bad.append(f"the log-prob written by head {name} is not log p({name} | its parent) at the written samples")
         if isinstance(lp, torch.Tensor):
-            if lp.shape != want_a.shape or not torch.allclose(lp, want_a + want_b):
-                bad.append("log_prob(output) is not log p(a) + log p(b | a) at the samples of the output")
+            tot = want["a"] + want["b"] + want["c"]
+            if lp.shape != tot.shape or not torch.allclose(lp, tot):
+                bad.append("log_prob(output) is not log p(a) + log p(b | a) + log p(c | b) at the samples of the output")
         else:
-            ga = lp.get("a_log_prob", None)
-            gb = lp.get("b_log_prob", None)
-            if ga is None or gb is None:
-                bad.append(f"per-head entries missing: {sorted(map(str, lp.keys(True, True)))}")
-            else:
-                if not torch.allclose(ga, want_a):
-                    bad.append("a_log_prob is not log p(a)")
-                if not torch.allclose(gb, want_b):
-                    bad.append("b_log_prob is not log p(b | a) at the a of the tensordict")
+            for name in want:
+                got = lp.get(name + "_log_prob", None)
+                if got is None:
+                    bad.append(f"per-head entry {name}_log_prob missing: {sorted(map(str, lp.keys(True, True)))}")
+                elif not torch.allclose(got, want[name]):
+                    bad.append(f"{name}_log_prob is not log p({name} | parent) at the sample of the tensordict")
         if bad:
             run.oracle_fail("probabilistic", case, "; ".join(bad), f"autoregressive:{'agg' if agg else 'perkey'}:{it}")
         else:
